@@ -230,12 +230,21 @@ def groupByKind (h : Heap) (rs : List Nat) : List (RecKind × List Nat) :=
     if acc.any (fun g => g.1 == k) then acc.map (fun g => if g.1 == k then (g.1, g.2 ++ [r]) else g)
     else acc ++ [(k, [r])]) []
 
-/-- merge one group of ≥ 2 records: `merged = records[0].copy(); merged.add_attributes(r.attributes)…` -/
+/-- the first record of a group re-created in a scratch bundle of its own (`ProvBundle()`: no namespaces, no document):
+    the merge happens outside the source -/
+def scratchCopy (h : Heap) (r0 : Nat) : Heap × Except Err Nat :=
+  let cell := h.recCell r0
+  let attrs : List AttrArg := cell.r.flat.map (fun p => { name := .qn p.1, value := .val p.2 })
+  let (h0, sc) := h.allocCont false none [] none
+  h0.mkRecord sc cell.r.kind cell.r.id attrs
+
+/-- merge one group of ≥ 2 records: `merged = <records[0] re-created in a scratch bundle>;
+    merged.add_attributes(r.attributes)…` -/
 def mergeGroup (h : Heap) (rs : List Nat) : Heap × Except Err Nat :=
   match rs with
   | [] => (h, .error "unspecified:empty-group")
   | r0 :: rest =>
-    match h.copyRecord r0 with
+    match h.scratchCopy r0 with
     | (h1, .error e) => (h1, .error e)
     | (h1, .ok mref) =>
       let rec go (h : Heap) : List Nat → Heap × Option Err
